@@ -101,20 +101,26 @@ def groups_of(a, g, steps, pts):
 
 
 def period_classes(a, g, pts):
-    """steps that must carry the same dispatch (periodicity): dict step -> class key"""
+    """steps that must carry the same dispatch (periodicity): dict step -> (duration number, position within the period).
+    Period and duration boundaries are calendar points of the given frequencies (anchored frequencies such as 'W' or 'd'
+    start at their anchors, not at the grid start)."""
     if not a.get('periodicity'):
         return None
     tz = g.get('tz')
     T = len(pts) - 1
-    tp0 = pd.Timestamp(pts[0], unit='s', tz='UTC')
-    per = M.freq_td_(a['periodicity'])
-    dur = M.freq_td_(a['periodicity_duration']) if a.get('periodicity_duration') else None
+    tp = pd.date_range(start=M.tstamp(g['start'], tz), end=M.tstamp(g['end'], tz), freq=g['freq'], tz=tz)[:-1]
+    fp, fd = a['periodicity'], a.get('periodicity_duration')
+    pb = pd.date_range(tp[0] - 2 * M.freq_td_(fp), tp[-1] + 2 * M.freq_td_(fp), freq=fp, tz=tz)
+    pb = [int(p.value // 10 ** 9) for p in pb]
+    db = None
+    if fd is not None:
+        db = pd.date_range(tp[0] - 2 * M.freq_td_(fd), tp[-1] + 2 * M.freq_td_(fd), freq=fd, tz=tz)
+        db = [int(p.value // 10 ** 9) for p in db]
     key = {}
     for t in range(T):
-        el = pd.Timedelta(seconds=pts[t] - pts[0])
-        d = int(el // dur) if dur is not None else 0
-        pos = el - (el // per) * per
-        key[t] = (d, int(pos.total_seconds()))
+        last_p = max(b for b in pb if b <= pts[t])
+        d = 0 if db is None else sum(1 for b in db if b <= pts[t])
+        key[t] = (d, pts[t] - last_p)
     return key
 
 
